@@ -129,6 +129,14 @@ def gen_a(seed):
     d["meta"]["fix"] = False
     if rng.random() < 0.1:
         d["argv"] = ["-oc", "out/conf.json"] + d["argv"]
+    # options that only mean something together with --fix are still legal without it
+    if rng.random() < 0.25:
+        d["argv"] = ["-fp", str(rng.randint(1, 7))] + d["argv"]
+    if rng.random() < 0.08 and "--stdin" not in d["argv"]:
+        d["sandbox"].append(workload.sb_entry("fixonly.json", common.json_bytes({"fix": {"rule": {"whitespace_001": ["all"]}}})))
+        d["argv"] = ["--fix_only", "fixonly.json"] + d["argv"]
+    if rng.random() < 0.08:
+        d["argv"] = ["--force_fix"] + d["argv"]
     return d
 
 
